@@ -66,6 +66,12 @@ static void exec_program(const Program &P, std::vector<uint64_t> &dig) {
         if (op.a == 0) e = econf_setStringValue(kf, SEC_ARGS[op.b].arg, op.s1.c_str(), op.s2.c_str());
         else if (op.a == 1) e = econf_setInt64Value(kf, SEC_ARGS[op.b].arg, op.s1.c_str(), (int64_t)op.s2.size() * 1234567);
         else if (op.a == 2) e = econf_setBoolValue(kf, SEC_ARGS[op.b].arg, op.s1.c_str(), op.s2.size() % 2 ? "Yes" : "false");
+        else if (op.a == 4) {
+          // many new keys at once: the entry array of this private object grows past its initial capacity
+          int nk = 9 + (int)(op.s2.size() * 3);
+          for (int i = 0; i < nk && e == ECONF_SUCCESS; i++)
+            e = econf_setStringValue(kf, SEC_ARGS[op.b].arg, (op.s1 + "-" + std::to_string(i)).c_str(), op.s2.c_str());
+        }
         else e = econf_setDoubleValue(kf, SEC_ARGS[op.b].arg, op.s1.c_str(), (double)op.s2.size() / 3.0);
         break;
       case O_GET: {
@@ -238,6 +244,7 @@ static Program gen_program(Src &s, const std::string &dir, bool &reads, bool &wr
       case O_SET:
         op.s1 = hist_keys()[s.below((uint32_t)hist_keys().size())];
         op.s2 = gen_text(s, make_alphabet("#"), 1 + (int)s.below(10));
+        if (s.chance(15)) op.a = 4;
         writes = true;
         break;
       case O_GET: op.s1 = hist_keys()[s.below((uint32_t)hist_keys().size())]; reads = true; break;
@@ -276,9 +283,13 @@ static void run(Src &s) {
   for (auto &P : progs)
     for (auto &op : P.ops) g_case.shape_hash = fnv_u64((uint64_t)op.kind, g_case.shape_hash);
 
-  // serial reference
+  // serial reference - before the concurrent run, or (half of the cases) after it, so that the concurrent run is
+  // the first to touch whatever the library initialises lazily or keeps process-wide
   std::vector<std::vector<uint64_t>> ref(progs.size()), got(progs.size());
-  for (size_t i = 0; i < progs.size(); i++) exec_program(progs[i], ref[i]);
+  const bool concurrent_first = s.chance(50);
+  if (concurrent_first) g_case.tag("concurrent_run_first");
+  if (!concurrent_first)
+    for (size_t i = 0; i < progs.size(); i++) exec_program(progs[i], ref[i]);
   // files written by the programs are rewritten identically in the second run (same programs)
   int before = g_tsan_reports.load();
   pthread_barrier_t bar;
@@ -299,6 +310,8 @@ static void run(Src &s) {
     });
   for (auto &t : th) t.join();
   pthread_barrier_destroy(&bar);
+  if (concurrent_first)
+    for (size_t i = 0; i < progs.size(); i++) exec_program(progs[i], ref[i]);
   // overlap (evidence only, never part of the verdict)
   bool overlapped = false;
   for (size_t i = 0; i < progs.size(); i++)
